@@ -9,9 +9,10 @@ from concurrent.futures import ThreadPoolExecutor
 import vlib, extract
 from vlib import hexs
 
-REQUIRED = ['bdat_sender_framing', 'bdat_sender_no_fault', 'bdat_terminates', 'bdat_no_progress_below_minimum',
-            'bdat_minimum_is_16', 'bdat_readbin_exact', 'bdat_buffer_fidelity', 'bdat_receiver_fidelity',
-            'bdat_failure_sticky', 'bdat_failed_no_handoff']
+REQUIRED = ['bdat_sender_framing', 'bdat_sender_frames_parse', 'bdat_sender_payload_exact', 'bdat_predicate_accepts_model',
+            'bdat_sender_no_fault', 'bdat_terminates', 'bdat_no_progress_below_minimum', 'bdat_minimum_is_16',
+            'bdat_readbin_exact', 'bdat_buffer_fidelity', 'bdat_receiver_fidelity',
+            'bdat_failure_sticky', 'bdat_failed_no_handoff', 'bdat_syntax_error_inert', 'bdat_any_error_sticky_counterexample']
 
 CR, LF = 13, 10
 ALPHA = b'a\r\n'
@@ -427,7 +428,7 @@ def run(ctx):
                               nontrivial=lambda c, o: ' QE' in o or o.startswith('QE'),
                               corr_name='model QsmtpModel.Bdat.session (smtpBdat, netReadbin, netRead) vs qsmtpd/data.c:smtp_bdat + lib/netio.c, CHUNK_READ_SIZE=%d' % b)
     if not ctx.quick():
-        vlib.leanchecker(ctx, ['QsmtpModel.Props.C19', 'QsmtpModel.Lemmas.Bdat'])
+        vlib.leanchecker(ctx, ['QsmtpModel.Props.C19', 'QsmtpModel.Lemmas.Bdat', 'QsmtpModel.Lemmas.BdatRx'])
     return vlib.finish(ctx, assumptions=[
         'build with -DCHUNKING (off in the baseline build; the harnesses compile qremote/qrbdat.c and qsmtpd/data.c themselves)',
         'sender: message not empty (Qremote refuses an empty message: mmap of length 0 fails) and chunksize > lenlen + 1 '
